@@ -735,7 +735,7 @@ impl Source for GenSource {
                                 if !on_opt {
                                     self.walk_fault = None;
                                     let n = if r.rtype == T_A { 16 } else { 4 };
-                                    return Some(CurOp::SetIp(self.rng.bytes(n)));
+                                    return Some(CurOp::SetIp(gen_addr(&mut self.rng, n)));
                                 }
                             }
                         }
@@ -788,7 +788,12 @@ impl GenSource {
             0..=4 => CurOp::SetRawName(self.gen_valid_raw_name(cur_name.as_ref())),
             5 | 6 => CurOp::SetTtl(gen_ttl(&mut self.rng)),
             7 | 8 => {
-                if rec.rtype == T_A {
+                if (rec.rtype == T_A || rec.rtype == T_AAAA) && self.rng.chance(1, 10) {
+                    // edge argument: an address of the other family (incl. IPv4-mapped IPv6);
+                    // the call may refuse it; if it accepts, the result is judged as usual
+                    let n = if rec.rtype == T_A { 16 } else { 4 };
+                    CurOp::SetIp(gen_addr(&mut self.rng, n))
+                } else if rec.rtype == T_A {
                     CurOp::SetIp(gen_addr(&mut self.rng, 4))
                 } else if rec.rtype == T_AAAA {
                     CurOp::SetIp(gen_addr(&mut self.rng, 16))
